@@ -2,6 +2,7 @@ package main
 
 import (
 	"fmt"
+	"go/constant"
 	"go/token"
 	"go/types"
 	"regexp"
@@ -239,6 +240,198 @@ func init() {
 		if p := c.Prog("amd64"); p != nil {
 			c.Clauses = append(c.Clauses, "C16.ottranscript: sender and receiver of the simplest OT hash transcripts of one shape (A ‖ B ‖ P, whole encodings, nothing else)")
 			c.simotTranscriptRule(p, "C16.ottranscript")
+		}
+	}
+}
+
+// hintAllRule: VecK.MakeHint computes the hint of every one of the K polynomials. The signing loop discards
+// an attempt only when the count of ones exceeds ω, so the loop over the polynomials may be left early only
+// on a test that the count already exceeds ω (count > ω, or count >= ω+1); leaving at count == ω hands the
+// caller a hint vector whose remaining polynomials are stale, and the caller keeps the attempt.
+func (c *Ctx) hintAllRule(p *Program, rule string) {
+	n := 0
+	for _, pk := range []string{"sign/dilithium/mode2", "sign/dilithium/mode3", "sign/dilithium/mode5", "sign/mldsa/mldsa44", "sign/mldsa/mldsa65", "sign/mldsa/mldsa87"} {
+		ip := pk + "/internal"
+		f := p.Func(ip, "VecK", "MakeHint")
+		what := "the hint of every polynomial is computed unless the count already exceeds ω"
+		if f == nil {
+			c.undecided(rule, ip+": "+what, "VecK.MakeHint does not resolve", "")
+			continue
+		}
+		omega, ok := p.constInt(ip, "Omega")
+		if !ok {
+			c.undecided(rule, fname(f)+": "+what, "Omega does not resolve", p.fnPos(f))
+			continue
+		}
+		var bad []string
+		loops := 0
+		for _, h := range f.Blocks {
+			body := loopBody(h)
+			if body == nil {
+				continue
+			}
+			loops++
+			for b := range body {
+				if b == h {
+					continue
+				}
+				for _, s := range b.Succs {
+					if body[s] {
+						continue
+					}
+					// an exit from inside the body
+					okExit := false
+					if iff, isIf := b.Instrs[len(b.Instrs)-1].(*ssa.If); isIf {
+						if bo, isBo := iff.Cond.(*ssa.BinOp); isBo {
+							taken := b.Succs[0] == s // exit on the true edge
+							okExit = exceedsConst(bo, omega, taken)
+						}
+					}
+					if !okExit {
+						bad = append(bad, fmt.Sprintf("the loop is left from inside its body at %s on a test that does not imply count > %d", p.pos(firstPos(b)), omega))
+					}
+				}
+			}
+		}
+		n++
+		if loops == 0 {
+			c.undecided(rule, fname(f)+": "+what, "no loop found", p.fnPos(f))
+			continue
+		}
+		if len(bad) > 0 {
+			sort.Strings(bad)
+			c.bad(rule, fname(f)+": "+what, strings.Join(bad, "; "), p.fnPos(f))
+			continue
+		}
+		c.ok(rule, fname(f)+": "+what, fmt.Sprintf("%d loop(s), left only at the header or on count > %d", loops, omega), p.fnPos(f))
+	}
+	c.count("hint_loops", n)
+}
+
+// exceedsConst: the comparison, on the given edge, implies (non-constant operand) > k.
+func exceedsConst(bo *ssa.BinOp, k int64, onTrue bool) bool {
+	kv := func(v ssa.Value) (int64, bool) {
+		cst, ok := v.(*ssa.Const)
+		if !ok || cst.Value == nil || cst.Value.Kind() != constant.Int {
+			return 0, false
+		}
+		return cst.Int64(), true
+	}
+	op := bo.Op
+	var n int64
+	if y, ok := kv(bo.Y); ok {
+		n = y
+	} else if x, ok := kv(bo.X); ok {
+		// k OP v  ==  v OP' k
+		n = x
+		switch op {
+		case token.LSS:
+			op = token.GTR
+		case token.LEQ:
+			op = token.GEQ
+		case token.GTR:
+			op = token.LSS
+		case token.GEQ:
+			op = token.LEQ
+		}
+	} else {
+		return false
+	}
+	if !onTrue {
+		switch op {
+		case token.LSS:
+			op = token.GEQ
+		case token.LEQ:
+			op = token.GTR
+		case token.GTR:
+			op = token.LEQ
+		case token.GEQ:
+			op = token.LSS
+		default:
+			return false
+		}
+	}
+	switch op {
+	case token.GTR:
+		return n >= k
+	case token.GEQ:
+		return n >= k+1
+	}
+	return false
+}
+
+func init() {
+	prev := registry["C04"]
+	registry["C04"] = func(c *Ctx) {
+		prev(c)
+		if p := c.Prog("amd64"); p != nil {
+			c.Clauses = append(c.Clauses, "C04.hintall: MakeHint leaves its loop over the polynomials early only when the count of ones already exceeds ω")
+			c.hintAllRule(p, "C04.hintall")
+		}
+	}
+}
+
+// notSnapshotRule: Parser.not flips the polarity of exactly the leaves that were declared below the negation.
+// It recognises them by a snapshot of the wires that existed before; the snapshot has to tell wires apart
+// by their whole identity, i.e. be keyed by the key type of the parser's own wire table. A snapshot keyed by
+// the text of a leaf (label, or label and value) takes a repeated leaf under a negation for an old one and
+// leaves it unflipped: the parsed policy is not the written one.
+func (c *Ctx) notSnapshotRule(p *Program, rule string) {
+	f := p.Func("abe/cpabe/tkn20/internal/dsl", "Parser", "not")
+	what := "the snapshot of wires declared before a negation is keyed by the wire identity"
+	if f == nil {
+		c.undecided(rule, what, "Parser.not does not resolve", "")
+		return
+	}
+	var wiresKey types.Type
+	for _, b := range f.Blocks {
+		for _, in := range b.Instrs {
+			if fa, ok := in.(*ssa.FieldAddr); ok && fieldName(fa) == "wires" {
+				if pt, ok := fa.Type().Underlying().(*types.Pointer); ok {
+					if m, ok := pt.Elem().Underlying().(*types.Map); ok {
+						wiresKey = m.Key()
+					}
+				}
+			}
+		}
+	}
+	if wiresKey == nil {
+		c.undecided(rule, fname(f)+": "+what, "the wire table is not used", p.fnPos(f))
+		return
+	}
+	n := 0
+	var bad []string
+	for _, b := range f.Blocks {
+		for _, in := range b.Instrs {
+			mm, ok := in.(*ssa.MakeMap)
+			if !ok {
+				continue
+			}
+			n++
+			k := mm.Type().Underlying().(*types.Map).Key()
+			if !types.Identical(k, wiresKey) {
+				bad = append(bad, fmt.Sprintf("%s: snapshot keyed by %s, the wire table by %s", p.pos(mm.Pos()), types.TypeString(k, nil), types.TypeString(wiresKey, nil)))
+			}
+		}
+	}
+	c.count("not_snapshot_maps", n)
+	switch {
+	case n == 0:
+		c.undecided(rule, fname(f)+": "+what, "no snapshot map found", p.fnPos(f))
+	case len(bad) > 0:
+		c.bad(rule, fname(f)+": "+what, strings.Join(bad, "; "), p.fnPos(f))
+	default:
+		c.ok(rule, fname(f)+": "+what, fmt.Sprintf("%d snapshot map(s) keyed by %s", n, types.TypeString(wiresKey, nil)), p.fnPos(f))
+	}
+}
+
+func init() {
+	prev := registry["C20"]
+	registry["C20"] = func(c *Ctx) {
+		prev(c)
+		if p := c.Prog("amd64"); p != nil {
+			c.Clauses = append(c.Clauses, "C20.notsnapshot: the negation level of the policy parser tells old and new leaves apart by wire identity")
+			c.notSnapshotRule(p, "C20.notsnapshot")
 		}
 	}
 }
